@@ -161,7 +161,12 @@ fn rs_files(dir: &Path, out: &mut Vec<PathBuf>) {
 }
 
 impl Tr {
-    pub fn auto_fn(&mut self, ty: Option<&str>, name: &str) -> String {
+    pub fn auto_fn(&mut self, ty: Option<&str>, name: &str) -> String { self.auto_fn_pub(ty, name, vec![]) }
+
+    /// `inherit`: public `self.*` paths of the caller, for a method called on the caller's own `self` (same object, so the
+    /// same fields are public).  The analysis is memoised per op: a later caller whose `self` lacks one of these paths gets
+    /// a `secArg` node from `sec_arg_check` (rejected), never a silently wrong skeleton.
+    pub fn auto_fn_pub(&mut self, ty: Option<&str>, name: &str, inherit: Vec<String>) -> String {
         let op = match ty {
             Some(t) => format!("auto_{t}_{name}"),
             None => format!("auto_{name}"),
@@ -171,7 +176,7 @@ impl Tr {
         }
         let file = self.repo.iter().find(|r| r.impl_ty.as_deref() == ty && r.name == name).map(|r| r.file.clone()).unwrap_or_default();
         self.cfg_fns.push(FnCfg { op: op.clone(), listed: false, negative_control: false, file, impl_ty: ty.map(|s| s.to_string()), fn_name: name.to_string(),
-                                  public: vec![], callee_as: vec![], returns_iter: false, auto: true });
+                                  public: inherit, callee_as: vec![], returns_iter: false, auto: true });
         op
     }
 
@@ -198,7 +203,7 @@ impl Tr {
         let mut cx = FnCtx {
             op: op.to_string(), file: cfg.file.clone(), impl_ty: cfg.impl_ty.clone(),
             public_paths: cfg.public.iter().cloned().collect(), const_generics: rf.const_generics.iter().cloned().collect(),
-            scopes: vec![], secret: HashSet::new(), closures: vec![], loops: vec![], closure_pub_params: HashMap::new(), depth_loop: 0, depth_sec: 0, depth_branch: 0,
+            scopes: vec![], secret: HashSet::new(), closures: vec![], loops: vec![], closure_pub_params: HashMap::new(), array_lits: HashMap::new(), depth_loop: 0, depth_sec: 0, depth_branch: 0,
             emit: false, changed: false, direct_stmt: None,
         };
         let mut param_names = vec![];
